@@ -43,6 +43,47 @@ pub struct HrScn {
     pub ops: Vec<ROp>,
     /// 0 = plain cursor, else BufReader capacity
     pub rbuf: u32,
+    /// physical layout of the .shp: 0 = as the writer left it; 1 = records in reverse physical
+    /// order with filler between them; 2 = rotated order with filler that looks like a record
+    /// header (the .shx still lists them in logical order)
+    #[serde(default)]
+    pub layout: u8,
+}
+
+/// Re-lay out a valid file: same records, same index order, different physical order + filler.
+pub fn relayout(f: &ValidFile, layout: u8) -> (Vec<u8>, Vec<u8>) {
+    if layout == 0 {
+        return (f.shp.clone(), f.shx.clone());
+    }
+    let n = f.bounds.len();
+    let order: Vec<usize> = if layout == 1 { (0..n).rev().collect() } else { (0..n).map(|i| (i + 1) % n).collect() };
+    let mut body: Vec<u8> = Vec::new();
+    let mut offsets = vec![0usize; n];
+    for (k, &li) in order.iter().enumerate() {
+        let filler: Vec<u8> = if layout == 1 {
+            vec![0xEE; [0usize, 4, 10, 2][k % 4]]
+        } else {
+            let mut b = vec![0u8; 12 + 2 * (k % 3)];
+            b[0..4].copy_from_slice(&1i32.to_be_bytes());
+            b[4..8].copy_from_slice(&10i32.to_be_bytes());
+            b[8..12].copy_from_slice(&f.shp[32..36]);
+            b
+        };
+        body.extend_from_slice(&filler);
+        offsets[li] = 100 + body.len();
+        body.extend_from_slice(&f.shp[f.bounds[li].0..f.bounds[li].1]);
+    }
+    body.extend_from_slice(&[0xEE; 6]);
+    let mut shp = f.shp[..100].to_vec();
+    let words = ((100 + body.len()) / 2) as i32;
+    shp[24..28].copy_from_slice(&words.to_be_bytes());
+    shp.extend_from_slice(&body);
+    let mut shx = f.shx[..100].to_vec();
+    for i in 0..n {
+        shx.extend_from_slice(&((offsets[i] / 2) as i32).to_be_bytes());
+        shx.extend_from_slice(&(((f.bounds[i].1 - f.bounds[i].0 - 8) / 2) as i32).to_be_bytes());
+    }
+    (shp, shx)
 }
 
 pub fn file_for(ty: i32, n: usize, varied: bool) -> WProg {
@@ -197,11 +238,16 @@ fn history_site(ops: &[ROp], upto: usize) -> String {
 pub fn run_history(scn: &HrScn, f: &ValidFile, dbf: &[u8], ctx: &mut Ctx) {
     let n = f.expected.len();
     let never = |_: usize, _: usize| false;
+    if scn.layout != 0 && scn.kind == RKind::ShpNoIndex {
+        ctx.fail("HARNESS", "invalid-scenario", "histr", "a re-laid-out file can only be read with its index".to_string());
+        return;
+    }
+    let (shp, shx) = relayout(f, scn.layout);
     let opened = guarded(|| -> Result<AnyReader, shapefile::Error> {
         Ok(match scn.kind {
-            RKind::ShpIndex => AnyReader::Shp(ShapeReader::with_shx(src(&f.shp, scn.rbuf), src(&f.shx, scn.rbuf))?),
-            RKind::ShpNoIndex => AnyReader::Shp(ShapeReader::new(src(&f.shp, scn.rbuf))?),
-            RKind::Full => AnyReader::Full(Reader::new(ShapeReader::with_shx(src(&f.shp, scn.rbuf), src(&f.shx, scn.rbuf))?, dbase::Reader::new(src(dbf, scn.rbuf))?)),
+            RKind::ShpIndex => AnyReader::Shp(ShapeReader::with_shx(src(&shp, scn.rbuf), src(&shx, scn.rbuf))?),
+            RKind::ShpNoIndex => AnyReader::Shp(ShapeReader::new(src(&shp, scn.rbuf))?),
+            RKind::Full => AnyReader::Full(Reader::new(ShapeReader::with_shx(src(&shp, scn.rbuf), src(&shx, scn.rbuf))?, dbase::Reader::new(src(dbf, scn.rbuf))?)),
         })
     });
     let mut rdr = match opened {
@@ -230,7 +276,7 @@ pub fn run_history(scn: &HrScn, f: &ValidFile, dbf: &[u8], ctx: &mut Ctx) {
             }
         };
         ctx.stats.reach(&history_site(&scn.ops, oi));
-        let site = format!("{}:{}", history_site(&scn.ops, oi), match scn.kind { RKind::ShpIndex => "index", RKind::ShpNoIndex => "noindex", RKind::Full => "full" });
+        let site = format!("{}:{}{}", history_site(&scn.ops, oi), match scn.kind { RKind::ShpIndex => "index", RKind::ShpNoIndex => "noindex", RKind::Full => "full" }, if scn.layout != 0 { ":relaid" } else { "" });
         match (op, obs) {
             (ROp::Count, Obs::Count(c)) => {
                 let want = if has_index { Ok(n) } else { Err(RErr::MissingIndex) };
@@ -323,7 +369,7 @@ pub fn run_history(scn: &HrScn, f: &ValidFile, dbf: &[u8], ctx: &mut Ctx) {
             }
         }
     }
-    ctx.stats.distinct.insert(crate::prng::fnv_str(&format!("{}|{}|{:?}|{}|{}", scn.ty, scn.varied, scn.kind, hist, scn.rbuf)));
+    ctx.stats.distinct.insert(crate::prng::fnv_str(&format!("{}|{}|{:?}|{}|{}|{}", scn.ty, scn.varied, scn.kind, hist, scn.rbuf, scn.layout)));
 }
 
 pub fn execute(scn: &HrScn, ctx: &mut Ctx) {
@@ -359,26 +405,32 @@ pub fn sweep_unit(unit: u64, max_len: usize, ctx: &mut Ctx, ctl: &mut UnitCtl) {
     let alpha = alphabet(n);
     let first = alpha[(unit as usize) % alpha.len()];
     let cfg = (unit as usize) / alpha.len();
-    let kind = [RKind::ShpIndex, RKind::ShpNoIndex, RKind::Full][cfg % 3];
-    let varied = (cfg / 3) % 2 == 0;
+    // 6 configurations on files as written, 4 on re-laid-out files (index order != physical order)
+    let (kind, varied, layout) = match cfg {
+        0..=5 => ([RKind::ShpIndex, RKind::ShpNoIndex, RKind::Full][cfg % 3], (cfg / 3) % 2 == 0, 0u8),
+        6 => (RKind::ShpIndex, true, 1),
+        7 => (RKind::Full, true, 1),
+        8 => (RKind::ShpIndex, false, 2),
+        _ => (RKind::Full, true, 2),
+    };
     // two types per configuration: a multi-vertex one (sizes can differ) and points (always equal)
     let ty = if varied { [3, 15, 28][cfg % 3] } else { [1, 11, 5][cfg % 3] };
     let rbuf = [0u32, 16, 0][cfg % 3];
     let Some(f) = produce(&file_for(ty, n, varied)) else {
         ctx.fail("HARNESS", "invalid-scenario", "producer", "cannot produce the file".to_string());
-        ctl.after_case(ctx, || Scenario::HistR(HrScn { ty, n: n as u8, varied, kind, ops: vec![], rbuf }));
+        ctl.after_case(ctx, || Scenario::HistR(HrScn { ty, n: n as u8, varied, kind, ops: vec![], rbuf, layout }));
         return;
     };
     let dbf = make_dbf(n);
     // depth-first enumeration of all suffixes
     let mut stack: Vec<Vec<ROp>> = vec![vec![first]];
     while let Some(h) = stack.pop() {
-        let scn = HrScn { ty, n: n as u8, varied, kind, ops: h.clone(), rbuf };
+        let scn = HrScn { ty, n: n as u8, varied, kind, ops: h.clone(), rbuf, layout };
         if ctl.before_case(|| Scenario::HistR(scn.clone())) {
             ctx.stats.evaluations += 1;
             run_history(&scn, &f, &dbf, ctx);
             if ctx.stats.samples.len() < 2 && h.len() == max_len && ctl.case_no % 501 == 7 {
-                ctx.stats.samples.push(serde_json::json!({"reader": format!("{:?}", kind), "type": type_name(ty), "records": n, "varied_sizes": varied, "history": history_name(&h)}));
+                ctx.stats.samples.push(serde_json::json!({"reader": format!("{:?}", kind), "type": type_name(ty), "records": n, "varied_sizes": varied, "layout": layout, "history": history_name(&h)}));
             }
             ctl.after_case(ctx, || Scenario::HistR(scn.clone()));
         }
@@ -392,4 +444,4 @@ pub fn sweep_unit(unit: u64, max_len: usize, ctx: &mut Ctx, ctl: &mut UnitCtl) {
     }
 }
 
-pub const SWEEP_UNITS: u64 = 13 * 6;
+pub const SWEEP_UNITS: u64 = 13 * 10;
